@@ -4,8 +4,10 @@ import (
 	"bytes"
 	"fmt"
 	"io"
+	"iter"
 	"math/bits"
 	"os"
+	"runtime"
 	"sort"
 	"strconv"
 	"sync/atomic"
@@ -30,6 +32,15 @@ import (
 //	   mode 0: one window Open(epoch, start, end)
 //	   mode 1: the tuner's own schedule: every tuning.Chunks of every tuning.Batches(LineCount())
 //	   mode 2: windows of max(start,1) lines: [0,c) [c,2c) ... up to LineCount()
+//	   mode 3: start epochs (epoch, epoch+1, ...) through ONE tuning.Batches(LineCount()) value obtained
+//	           before the epoch loop (iter.Seq re-use); delivered = the lines of all epochs together
+//	   mode 4: a multi-chunk session: start packs up to three cut points (16 bits each) that split
+//	           [0,LineCount()) into 2..4 windows, end packs up to twelve steps (5 bits each,
+//	           1+op*4+window; 0 ends the script): op 0 read one line, 1 read to EOF, 2 Close (an
+//	           unfinished window is abandoned and re-opened later), 3 Rewind (start over), 4 Read
+//	           again after EOF, 5 Close a second time. Several chunks are open at once and their
+//	           reads interleave. Afterwards every window is completed and closed; delivered = the
+//	           lines of the completed pass of every window (= every line exactly once)
 //	   B is the size of the refill buffer (needs the hook epd/export_verif_c20.go; without the hook
 //	   only B = epd.VerifBackingBytes is accepted). Delivered lines are reported sorted (the
 //	   property speaks about the multiset). status: 0 ok, 1 NewChunker failed, 2 Open failed,
@@ -38,6 +49,15 @@ import (
 //	c20_batch    [mode a b]
 //	   mode 0: tuning.Batches(a)           -> [s0 e0 s1 e1 ...]
 //	   mode 1: tuning.Chunks(Range{a, b})  -> [s0 e0 s1 e1 ...]
+//	   mode 2: RE-USE of iter.Seq values. [2 nseq nsteps (kind a b)*nseq (i stop j at)*nsteps] : nseq values are
+//	           obtained first (kind 0 Batches(a), 1 Chunks({a b})), then every step ranges over value
+//	           i, leaves with break after stop items (stop <= 0: to the end) and, if j >= 0, ranges
+//	           over value j to its end inside the loop body at item number at (nested / interleaved,
+//	           j = i allowed). Per step: [count s e ...] of value i, then the same of value j if that
+//	           ran. Every traversal of a Seq has to produce its whole list again.
+//	   mode 3: [3 n reps]: ONE Batches(n) value, ranged reps times with Chunks(batch) ranged inside
+//	           (the tuner's schedule with the Seq hoisted out of the epoch loop): per repetition
+//	           [count s e ...] of all chunks
 func init() {
 	hx.Register(&hx.Stream{Name: "c20_shuffle", Gen: genC20Shuffle, Run: runC20Shuffle})
 	hx.Register(&hx.Stream{Name: "c20_file", Gen: genC20File, Run: runC20File, Shrink: shrinkC20File, Describe: describeC20File})
@@ -278,6 +298,15 @@ func c20HookPresent() bool {
 }
 
 func runC20File(a hx.Args) string {
+	// Every case starts from the state of a fresh process as far as the package can be reset from
+	// outside: a sync.Pool is emptied by two collections (the second one drops the victim cache).
+	// Without this a case can fail because of what an EARLIER case left in a package-level pool or
+	// cache, and its input alone would not reproduce the failure in a replay.
+	// One P while the case runs: which of two pooled objects a Get returns then does not depend on
+	// the scheduler (per-P caches), so a session that fails fails again in the replay.
+	runtime.GC()
+	runtime.GC()
+	defer runtime.GOMAXPROCS(runtime.GOMAXPROCS(1))
 	return c20Guard(20*time.Second, func() string { return runC20FileRaw(a) })
 }
 
@@ -303,6 +332,13 @@ func runC20FileRaw(a hx.Args) string {
 		return fail(1)
 	}
 	var lines [][]byte
+	if mode == 4 {
+		st, got := c20Session(ck, B, epoch, start, end)
+		if st != 0 {
+			return fail(st)
+		}
+		lines = got
+	}
 	window := func(s, e int) int {
 		ch, err := ck.Open(epoch, s, e)
 		if err != nil {
@@ -336,11 +372,25 @@ func runC20FileRaw(a hx.Args) string {
 				}
 			}
 		}
-	default:
+	case 2:
 		c := max(start, 1)
 		for s := 0; s < ck.LineCount(); s += c {
 			if st := window(s, min(s+c, ck.LineCount())); st != 0 {
 				return fail(st)
+			}
+		}
+	case 3:
+		// the Seq is obtained once, before the epoch loop
+		batches := tuning.Batches(ck.LineCount())
+		first := epoch
+		for i := 0; i < start; i++ {
+			epoch = first + i
+			for batch := range batches {
+				for c := range tuning.Chunks(batch) {
+					if st := window(c.Start, c.End); st != 0 {
+						return fail(st)
+					}
+				}
 			}
 		}
 	}
@@ -350,6 +400,133 @@ func runC20FileRaw(a hx.Args) string {
 		out.Int(len(l)).Bytes(l)
 	}
 	return out.String()
+}
+
+// c20Windows decodes the cut points of a session: boundaries 0, the non-zero 16-bit fields of
+// packed in their order, n.
+func c20Windows(packed, n int) [][2]int {
+	b := []int{0}
+	for k := 0; k < 3; k++ {
+		if c := (packed >> (16 * k)) & 0xffff; c != 0 {
+			b = append(b, c)
+		}
+	}
+	b = append(b, n)
+	var ws [][2]int
+	for k := 0; k+1 < len(b); k++ {
+		ws = append(ws, [2]int{b[k], b[k+1]})
+	}
+	return ws
+}
+
+// c20Session runs a multi-chunk session (mode 4 of c20_file) and returns the lines of the completed
+// pass of every window.
+func c20Session(ck *epd.Chunker, B, epoch, cuts, script int) (int, [][]byte) {
+	type win struct {
+		s, e   int
+		ch     *epd.Chunk // open chunk
+		closed *epd.Chunk // the chunk closed last
+		got    [][]byte
+		done   bool
+	}
+	var ws []*win
+	for _, w := range c20Windows(cuts, ck.LineCount()) {
+		ws = append(ws, &win{s: w[0], e: w[1]})
+	}
+	open := func(w *win) int {
+		ch, err := ck.Open(epoch, w.s, w.e)
+		if err != nil {
+			return 2
+		}
+		if B != epd.VerifBackingBytes {
+			any(ch).(c20SetBacking).VerifSetBacking(B)
+		}
+		w.ch, w.got, w.done = ch, nil, false
+		return 0
+	}
+	readOne := func(w *win) int {
+		if w.done {
+			return 0
+		}
+		if w.ch == nil {
+			if st := open(w); st != 0 {
+				return st
+			}
+		}
+		l, err := w.ch.Read()
+		if err == io.EOF {
+			w.done = true
+			return 0
+		}
+		if err != nil {
+			return 3
+		}
+		w.got = append(w.got, bytes.Clone(l))
+		return 0
+	}
+	drain := func(w *win) int {
+		for !w.done {
+			if st := readOne(w); st != 0 {
+				return st
+			}
+		}
+		return 0
+	}
+	for k := 0; k < 12; k++ {
+		d := (script >> (5 * k)) & 31
+		if d == 0 {
+			break
+		}
+		op, w := (d-1)/4, ws[(d-1)%4%len(ws)]
+		st := 0
+		switch op {
+		case 0:
+			st = readOne(w)
+		case 1:
+			st = drain(w)
+		case 2:
+			if w.ch != nil {
+				w.ch.Close()
+				w.closed, w.ch = w.ch, nil
+				if !w.done {
+					w.got = nil // abandoned; opened again later
+				}
+			}
+		case 3:
+			if w.ch != nil {
+				if w.ch.Rewind() != nil {
+					st = 3
+				}
+				w.got, w.done = nil, false
+			}
+		case 4:
+			if w.ch != nil && w.done {
+				if _, err := w.ch.Read(); err != io.EOF {
+					st = 3
+				}
+			}
+		default:
+			if w.closed != nil {
+				w.closed.Close()
+			}
+		}
+		if st != 0 {
+			return st, nil
+		}
+	}
+	var lines [][]byte
+	for _, w := range ws {
+		if st := drain(w); st != 0 {
+			return st, nil
+		}
+	}
+	for _, w := range ws {
+		if w.ch != nil {
+			w.ch.Close()
+		}
+		lines = append(lines, w.got...)
+	}
+	return 0, lines
 }
 
 // c20Text builds a file: nl non-blank lines with lengths from lenOf, blank lines sprinkled in
@@ -391,7 +568,9 @@ func c20FileCase(mode, B int, epoch int64, start, end int, data []byte, tags ...
 	}
 	what := map[int]string{0: fmt.Sprintf("Open(epoch=%d, %d, %d)", epoch, start, end),
 		1: fmt.Sprintf("every Chunks of every Batches, epoch=%d", epoch),
-		2: fmt.Sprintf("windows of %d lines, epoch=%d", max(start, 1), epoch)}[mode]
+		2: fmt.Sprintf("windows of %d lines, epoch=%d", max(start, 1), epoch),
+		3: fmt.Sprintf("%d epochs from %d on through ONE hoisted tuning.Batches value", start, epoch),
+		4: c20SessionDesc(epoch, start, end)}[mode]
 	nonblank := 0
 	for _, l := range bytes.Split(data, []byte{'\n'}) {
 		if len(l) > 0 {
@@ -400,6 +579,25 @@ func c20FileCase(mode, B int, epoch int64, start, end int, data []byte, tags ...
 	}
 	return hx.Input{In: in, Desc: fmt.Sprintf("file %s read with %s, refill buffer %d", q, what, B),
 		Tags: tags, NonTrivial: nonblank > 1}
+}
+
+func c20SessionDesc(epoch int64, cuts, script int) string {
+	var cs []int
+	for k := 0; k < 3; k++ {
+		if c := (cuts >> (16 * k)) & 0xffff; c != 0 {
+			cs = append(cs, c)
+		}
+	}
+	names := []string{"read1", "readEOF", "Close", "Rewind", "readAfterEOF", "CloseAgain"}
+	steps := ""
+	for k := 0; k < 12; k++ {
+		d := (script >> (5 * k)) & 31
+		if d == 0 {
+			break
+		}
+		steps += fmt.Sprintf(" %s(w%d)", names[min((d-1)/4, 5)], (d-1)%4%(len(cs)+1))
+	}
+	return fmt.Sprintf("a session, epoch=%d, windows cut at %v, steps%s, then every window completed", epoch, cs, steps)
 }
 
 func c20Epoch(rng *hx.Rng) int64 {
@@ -509,6 +707,22 @@ func genC20File(rng *hx.Rng, n int, tier string, emit func(hx.Input)) {
 			tags = append(tags, "single-fill(no-hook)")
 		}
 		epoch := c20Epoch(rng)
+		if nl >= 6 && nl < 60000 && terminated && rng.Chance(0.22) {
+			if rng.Chance(0.35) {
+				// the Batches value hoisted out of the epoch loop
+				emit(c20FileCase(3, B, int64(int32(epoch)), 2+rng.Intn(2), 0, data, append(tags, "hoisted-batches-epochs")...))
+			} else {
+				// several chunks open at once: sharing a recycled buffer only shows with the
+				// production buffer (one fill per window), so that is the usual choice
+				if rng.Chance(0.7) {
+					B = back
+				}
+				cuts, script, kind := c20GenSession(rng, nl)
+				emit(c20FileCase(4, B, epoch, cuts, script, data, append(tags, "session", "session-"+kind)...))
+			}
+			cnt++
+			continue
+		}
 		switch r := rng.Intn(10); {
 		case r < 4: // one window
 			lo, hi := 0, 0
@@ -530,6 +744,80 @@ func genC20File(rng *hx.Rng, n int, tier string, emit func(hx.Input)) {
 		}
 		cnt++
 	}
+}
+
+// c20GenSession draws the cut points and the script of a multi-chunk session over nl >= 6 lines.
+func c20GenSession(rng *hx.Rng, nl int) (cuts, script int, kind string) {
+	nw := 2 + rng.Intn(3)
+	if nl < 2*nw {
+		nw = 2
+	}
+	// nw windows of at least two lines: the spare lines are dealt out at random
+	sizes := make([]int, nw)
+	for k := range sizes {
+		sizes[k] = 2
+	}
+	for spare := nl - 2*nw; spare > 0; spare-- {
+		sizes[rng.Intn(nw)]++
+	}
+	var sorted []int
+	for k, at := 0, 0; k < nw-1; k++ {
+		at += sizes[k]
+		sorted = append(sorted, at)
+	}
+	for k, c := range sorted {
+		cuts |= c << (16 * k)
+	}
+	var steps []int
+	add := func(op, w int) { steps = append(steps, 1+op*4+w%nw) }
+	switch rng.Intn(4) {
+	case 0:
+		// a window is finished (EOF, then Close) before two others are opened and read in turn
+		kind = "finish-then-two-at-once"
+		add(1, 0)
+		if rng.Chance(0.3) {
+			add(4, 0)
+		}
+		add(2, 0)
+		a, b := 1, 2
+		for k := 0; k < 4; k++ {
+			add(0, a)
+			add(0, b)
+		}
+	case 1:
+		// all windows open from the start, one line each in turn
+		kind = "round-robin"
+		for k := 0; k < 12; k++ {
+			add(0, k)
+		}
+	case 2:
+		// a window is abandoned half way (Close without EOF), another one rewound
+		kind = "abandon-rewind"
+		add(0, 0)
+		add(0, 1)
+		add(2, 0)
+		add(0, 1)
+		add(3, 1)
+		add(0, 2)
+		add(0, 0)
+		add(0, 1)
+		add(1, 2)
+		add(2, 2)
+		add(5, 2)
+		add(0, 0)
+	default:
+		kind = "random"
+		for k := 0; k < 12; k++ {
+			op := []int{0, 0, 0, 0, 1, 2, 2, 3, 4, 5}[rng.Intn(10)]
+			add(op, rng.Intn(nw))
+		}
+	}
+	for k, d := range steps {
+		if k < 12 {
+			script |= d << (5 * k)
+		}
+	}
+	return cuts, script, kind
 }
 
 // files with more lines than one batch (and one chunk): the tuner's own schedule has several
@@ -555,9 +843,60 @@ func runC20Batch(a hx.Args) string {
 		for r := range tuning.Batches(a.Int(1)) {
 			out.Int(r.Start, r.End)
 		}
-	default:
+	case 1:
 		for r := range tuning.Chunks(tuning.Range{Start: a.Int(1), End: a.Int(2)}) {
 			out.Int(r.Start, r.End)
+		}
+	case 2:
+		nseq := a.Int(1)
+		seqs := make([]iter.Seq[tuning.Range], nseq)
+		for k := range seqs {
+			if a.Int(3+3*k) == 0 {
+				seqs[k] = tuning.Batches(a.Int(4 + 3*k))
+			} else {
+				seqs[k] = tuning.Chunks(tuning.Range{Start: a.Int(4 + 3*k), End: a.Int(5 + 3*k)})
+			}
+		}
+		record := func(rs []tuning.Range) {
+			out.Int(len(rs))
+			for _, r := range rs {
+				out.Int(r.Start, r.End)
+			}
+		}
+		for p, q := 3+3*nseq, 0; q < a.Int(2) && p+3 < a.Len(); p, q = p+4, q+1 {
+			i, stop, j, at := a.Int(p), a.Int(p+1), a.Int(p+2), a.Int(p+3)
+			var outer, inner []tuning.Range
+			ran := false
+			for r := range seqs[i] {
+				outer = append(outer, r)
+				if j >= 0 && len(outer)-1 == at {
+					for q := range seqs[j] {
+						inner = append(inner, q)
+					}
+					ran = true
+				}
+				if stop >= 1 && len(outer) >= stop {
+					break
+				}
+			}
+			record(outer)
+			if ran {
+				record(inner)
+			}
+		}
+	default:
+		batches := tuning.Batches(a.Int(1))
+		for rep := 0; rep < a.Int(2); rep++ {
+			var cs []tuning.Range
+			for b := range batches {
+				for c := range tuning.Chunks(b) {
+					cs = append(cs, c)
+				}
+			}
+			out.Int(len(cs))
+			for _, c := range cs {
+				out.Int(c.Start, c.End)
+			}
 		}
 	}
 	return out.String()
@@ -585,7 +924,90 @@ func genC20Batch(rng *hx.Rng, n int, tier string, emit func(hx.Input)) {
 			chunks(k*L, k*L+d, "boundary")
 		}
 	}
+	// RE-USE: one iter.Seq value ranged several times, after a break, nested, interleaved
+	argOf := func() (int, int, int) { // kind, a, b
+		if rng.Bool() {
+			return 0, []int{1, L - 1, L, L + 1, 2*L + 7, rng.Intn(6 * L), rng.Intn(30 * L)}[rng.Intn(7)], 0
+		}
+		k := rng.Intn(20)
+		return 1, k * L, k*L + []int{1, per, per + 1, L - 1, L, 1 + rng.Intn(L)}[rng.Intn(6)]
+	}
+	lenOf := func(kind, a, b int) int {
+		if kind == 0 {
+			return (a + L - 1) / L
+		}
+		return (b - a + per - 1) / per
+	}
+	reuse := func() {
+		nseq := 1 + rng.Intn(3)
+		nsteps := 2 + rng.Intn(4)
+		in := (&hx.Nums{}).Int(2, nseq, nsteps)
+		desc := "re-use of"
+		var lens []int
+		for k := 0; k < nseq; k++ {
+			kind, a, b := argOf()
+			in.Int(kind, a, b)
+			lens = append(lens, lenOf(kind, a, b))
+			if kind == 0 {
+				desc += fmt.Sprintf(" q%d=Batches(%d)", k, a)
+			} else {
+				desc += fmt.Sprintf(" q%d=Chunks({%d %d})", k, a, b)
+			}
+		}
+		tags := map[string]bool{"reuse": true}
+		for step := 0; step < nsteps; step++ {
+			i := rng.Intn(nseq)
+			if step < 2 && rng.Chance(0.7) {
+				i = 0 // the same value twice in a row
+			}
+			stop, j, at := 0, -1, 0
+			switch rng.Intn(5) {
+			case 0, 1:
+				tags["reuse-full-again"] = true
+			case 2:
+				stop = 1 + rng.Intn(max(lens[i], 1))
+				tags["reuse-after-break"] = true
+			case 3:
+				j, at = rng.Intn(nseq), rng.Intn(max(lens[i], 1))
+				tags["reuse-nested"] = true
+			default:
+				stop, j = 1+rng.Intn(max(lens[i], 1)), rng.Intn(nseq)
+				at = rng.Intn(stop)
+				tags["reuse-nested"], tags["reuse-after-break"] = true, true
+			}
+			in.Int(i, stop, j, at)
+			desc += fmt.Sprintf("; range q%d", i)
+			if stop >= 1 {
+				desc += fmt.Sprintf(" break after %d", stop)
+			}
+			if j >= 0 {
+				desc += fmt.Sprintf(" with q%d ranged inside at item %d", j, at)
+			}
+		}
+		var ts []string
+		for t := range tags {
+			ts = append(ts, t)
+		}
+		sort.Strings(ts)
+		emit(hx.Input{In: in.String(), Desc: desc, Tags: ts, NonTrivial: true})
+		cnt++
+	}
+	hoisted := func() {
+		m, reps := []int{1, L, L + 1, 2*L + 7, rng.Intn(5 * L)}[rng.Intn(5)], 2+rng.Intn(2)
+		emit(hx.Input{In: (&hx.Nums{}).Int(3, m, reps).String(),
+			Desc: fmt.Sprintf("one Batches(%d) value ranged %d times, Chunks(batch) inside", m, reps),
+			Tags: []string{"reuse", "reuse-hoisted-schedule"}, NonTrivial: m > 0})
+		cnt++
+	}
 	for cnt < n {
+		if rng.Chance(0.3) {
+			if rng.Chance(0.8) {
+				reuse()
+			} else {
+				hoisted()
+			}
+			continue
+		}
 		switch rng.Intn(6) {
 		case 0:
 			batches(rng.Intn(3*L), "random<3L")
